@@ -10,11 +10,11 @@ Variable env : Env.
 
 Lemma same_entities_idx s s' : same_entities s s' -> Inv_idx env s -> Inv_idx env s'.
 Proof.
-  unfold same_entities, Inv_idx. intros (E1 & E2 & E3 & E4 & E5 & E6 & E7 & E8 & E9 & E10 & E11 & E12 & _).
+  unfold same_entities, Inv_idx. intros (E1 & E2 & E3 & E4 & E5 & E6 & E7 & E8 & E9 & E10 & E11 & E12 & _ & _).
   rewrite E1, E2, E3, E4, E5, E6, E7, E8, E9, E10, E11, E12. tauto.
 Qed.
 
-Lemma prim_idx A s s' : Prim env A s s' -> Inv_idx env s -> Inv_idx env s'.
+Lemma prim_idx A T s s' : Prim env A T s s' -> Inv_idx env s -> Inv_idx env s'.
 Proof.
   intros P I. destruct P.
   - eapply modify_vehicle_idx; eauto.
@@ -24,12 +24,13 @@ Proof.
   - eapply remove_request_idx; eauto.
   - eapply add_request_idx; eauto.
   - eapply same_entities_idx; eauto.
+  - exact I.
 Qed.
-Lemma reach_idx A s s' : Reach env A s s' -> Inv_idx env s -> Inv_idx env s'.
+Lemma reach_idx A T s s' : Reach env A T s s' -> Inv_idx env s -> Inv_idx env s'.
 Proof. induction 1; intro I; [exact I|]. apply IHReach. eapply prim_idx; eauto. Qed.
 
 Theorem step_op_idx s o : Inv_idx env s -> Inv_idx env (step_op env s o).
-Proof. apply (reach_idx _ _ _ (step_op_reach env s o)). Qed.
+Proof. apply (reach_idx _ _ _ _ (step_op_reach env s o)). Qed.
 
 Theorem run_xop_idx s o : Inv_idx env s -> Inv_idx env (fst (run_xop env s o)).
 Proof.
